@@ -2,6 +2,7 @@
 import copy
 import hashlib
 
+from model import tables
 from checks import netcheck, netgen, netsim
 
 ID = "C11"
@@ -43,6 +44,13 @@ def gen(rng, tier, index):
                  ["line", "0;255;3;0;11;Gateway"]]
     if rng.random() < 0.3:
         edge += [["line", "255;255;0;0;17;2.1"], ["line", "255;0;0;0;3;x"]]
+    if rng.random() < 0.3:
+        # strings with lone surrogates: what a client that decodes non-UTF-8 bytes with "surrogateescape" hands
+        # to an MQTT gateway (a byte link turns them into U+FFFD) - accepted messages, so part of the state
+        sur = rng.choice(["caf\udce9", "\udcff", "a\udc80b"])
+        edge += [["line", "77;255;0;0;17;2.0"], ["line", f"77;1;0;0;6;{sur}"], ["line", f"77;255;3;0;11;{sur}"]]
+        if tables.payload_rule(cfg["version"], 1, 0) == "text":
+            edge += [["line", f"77;1;1;0;0;{sur}"]]
     pos = rng.randrange(0, len(ops) + 1)
     ops[pos:pos] = edge
     ops.append(["restart"])
